@@ -221,7 +221,9 @@ class Model:
 
     def group_by(self, m: MTable, new_id: str, toks: list, add: bool) -> MTable:
         g = list(m.grouping) if add else []
-        g += [t for t in toks if t not in g]
+        for t in toks:
+            if t not in g:
+                g.append(t)
         return m.child(new_id, "group_by", grouping=g)
 
     def ungroup(self, m: MTable, new_id: str) -> MTable:
